@@ -81,6 +81,19 @@ def gen_cases(ctx, rng):
                  dict(wire("PATCH", "/proxies/p/toxics/a", {"attributes": {"jitter": 5}}), pause_ms=[0, 3, 6][r]),
                  dict(wire("PATCH", "/proxies/p/toxics/a", {"toxicity": 0.5}), pause_ms=[4, 0, 12][r])]
         add("toxic_update_disjoint", {"setup": setup, "batch": batch, "probes": [], "rounds": rounds, "churn": []})
+    # (h) requests that stop or restart a proxy (disable / enable / re-address) against toxic requests on the same proxy, while clients
+    #     keep connecting through it to an upstream that accepts: connections are being accepted, dialled and linked at every moment
+    for r in range(4):
+        ps = ports(2)
+        setup = [wire("POST", "/proxies", {"name": "p", "listen": "127.0.0.1:%d" % ps[0], "upstream": "127.0.0.1:%d" % ps[1]}),
+                 wire("POST", "/proxies/p/toxics", {"type": "latency", "name": "a", "attributes": {"latency": 1}})]
+        batch = [[wire("POST", "/proxies/p", {"enabled": False}), wire("POST", "/proxies/p/toxics", {"type": "noop", "name": "n"})],
+                 [wire("POST", "/proxies/p", {"enabled": False}), wire("DELETE", "/proxies/p/toxics/a"), wire("POST", "/proxies/p/toxics", {"type": "noop", "name": "n"})],
+                 [wire("POST", "/proxies/p", {"upstream": "127.0.0.1:%d" % ps[1], "listen": "127.0.0.1:%d" % ps[0], "enabled": True}),
+                  wire("PATCH", "/proxies/p/toxics/a", {"attributes": {"latency": 2}}), wire("POST", "/proxies/p/toxics", {"type": "noop", "name": "n"})],
+                 [wire("DELETE", "/proxies/p"), wire("POST", "/proxies/p/toxics", {"type": "noop", "name": "n"}), wire("DELETE", "/proxies/p/toxics/a")]][r]
+        add("stop_vs_toxic_churn", {"setup": setup, "batch": batch, "probes": [], "rounds": rounds * 2, "churn": ["127.0.0.1:%d" % ps[0]] * 4,
+                                    "upstreams": ["127.0.0.1:%d" % ps[1]]})
     # (f) enable/disable/update against delete (finding F9): one round per case, own ports (a zombie keeps its port)
     for r in range(24 if ctx.tier == "quick" else 300):
         ps = ports(1)
@@ -183,6 +196,18 @@ def judge(case, rounds):
                 return ("not-atomic", "round %d: a listener nobody lists is accepting on %s" % (ri, zombies))
             if not seq_ok_create_delete(case["batch"], rd["batch"], names):
                 return ("not-atomic", "round %d: no one-at-a-time order explains results %s with final %s" % (ri, st, names))
+        elif fam == "stop_vs_toxic_churn":
+            tox = sorted(t["name"] for p in plist for t in p["toxics"])
+            first = case["batch"][0]
+            if first["method"] == "DELETE":
+                # delete || toxic requests: every toxic request either ran before the delete (200/204) or after it (404)
+                if st[0] != 204 or names or any(s not in (200, 204, 404) for s in st[1:]):
+                    return ("not-atomic", "round %d: delete of a proxy against toxic requests under connection churn answered %s; listed %s" % (ri, st, names))
+            else:
+                want = sorted({"a", "n"} - ({"a"} if any(q["method"] == "DELETE" for q in case["batch"]) else set()))
+                if any(s not in (200, 204) for s in st) or tox != want:
+                    return ("not-atomic", "round %d: stop/restart of a proxy against toxic requests under connection churn answered %s and left toxics %s (expected %s)"
+                            % (ri, st, tox, want))
         elif fam == "enable_vs_delete":
             if zombies:
                 return ("update-vs-delete-zombie", "delete || enable: nothing is listed but %s accepts connections (statuses %s)" % (zombies, st))
@@ -217,7 +242,7 @@ def run(ctx):
     def one(g):
         part = [i for i, c in enumerate(cases) if c["group"] == g]
         fin, fout = os.path.join(C.BUILD, "c16_in_%d.json" % g), os.path.join(C.BUILD, "c16_out_%d.json" % g)
-        json.dump({"cases": [{k: v for k, v in cases[i].items() if k in ("setup", "batch", "churn", "probes", "rounds", "interleave")} for i in part]}, open(fin, "w"))
+        json.dump({"cases": [{k: v for k, v in cases[i].items() if k in ("setup", "batch", "churn", "probes", "rounds", "interleave", "upstreams")} for i in part]}, open(fin, "w"))
         if os.path.exists(fout):
             os.remove(fout)
         rc, out = C.sh([h, "-mode", "conc", "-in", fin, "-out", fout], env=C.GOENV, timeout=900)
@@ -285,7 +310,8 @@ def run(ctx):
         "rule": "batches of 3-8 requests released together on the in-process server from as many goroutines, with connection churn on the proxy: "
                 "creates of one name / on one port, deletes of one proxy, toxic adds of one name / distinct names, mixed toxic add/update/remove, "
                 "create/delete mixed (checked against a sequential spec over all real-time-consistent orders), updates of one toxic setting different "
-                "fields with bodies arriving in two parts, enable vs delete; each batch repeated "
+                "fields with bodies arriving in two parts, enable vs delete, stop / restart / delete of a proxy against toxic requests while "
+                "four clients keep connecting through it to an accepting upstream; each batch repeated "
                 "on fresh servers; a 10 s watchdog reports requests that never return; plus the lock-up witness under virtual time; "
                 "distinct = batches, evaluations = rounds",
         "traces_validated_against_impl": nrounds, "input_distribution": stats, "failing_batches": len(fails),
